@@ -499,19 +499,34 @@ theorem parseCmd_fake_drop2_badperiod {w : World} {i : Nat} {a b : Str} {n per :
   simp only [toInt_ok ha, toInt_ok hb, bind, Except.bind, pure, Except.pure, hn, h1, if_false,
     if_true, applyPatch]
 
-/-- FAKE_TRXC_DELAY stores the delay; the custom handler returns None, so the common handler goes
-on, finds no verb of its own and acknowledges with 0 -/
+/-- the bound of FAKE_TRXC_DELAY in the code (regenerated) is the documented one minute -/
+theorem trxcDelayMaxMs_eq : Gen.World.trxcDelayMaxMs = 60000 := by decide
+
+theorem ctrlCmdHandler_fake_trxc_delay (a : Str) : ctrlCmdHandler [lit "FAKE_TRXC_DELAY", a] =
+    (do let d ← toInt a
+        if d < 0 ∨ d > Gen.World.trxcDelayMaxMs then pure (none, some (-1)) else
+        pure (some (.delay d), none)) := rfl
+
+/-- FAKE_TRXC_DELAY within 0..60000 stores the delay; the custom handler returns None, so the common
+handler goes on, finds no verb of its own and acknowledges with 0 -/
 theorem parseCmd_fake_trxc_delay {w : World} {i : Nat} {t : Trx} {a : Str} {ms : Int}
-    (ht : w.trxs[i]? = some t) (ha : pyInt a = some ms) :
+    (ht : w.trxs[i]? = some t) (ha : pyInt a = some ms) (h0 : 0 ≤ ms) (h1 : ms ≤ 60000) :
     parseCmd w i [lit "FAKE_TRXC_DELAY", a] =
       .ok (setTrx w i (fun t => { t with rspDelay := ms }), (0, [])) := by
-  have h1 : ctrlCmdHandler [lit "FAKE_TRXC_DELAY", a] =
-      (do let d ← toInt a; pure (some (.delay d), none)) := rfl
+  have hb : ¬ (ms < 0 ∨ ms > Gen.World.trxcDelayMaxMs) := by rw [trxcDelayMaxMs_eq]; omega
   have h2 : ∀ t' : Trx, commonCmd t' [lit "FAKE_TRXC_DELAY", a] = pure (.reply 0 []) := fun _ => rfl
-  rw [parseCmd_eq, h1]
-  simp only [toInt_ok ha, bind, Except.bind, pure, Except.pure, applyPatch, setTrx_getElem?, ht,
-    if_true, Option.map_some, h2, applyAction]
+  rw [parseCmd_eq, ctrlCmdHandler_fake_trxc_delay]
+  simp only [toInt_ok ha, bind, Except.bind, pure, Except.pure, hb, if_false, applyPatch,
+    setTrx_getElem?, ht, if_true, Option.map_some, h2, applyAction]
   rfl
+
+/-- a negative delay or one above one minute is refused with −1 and nothing is stored -/
+theorem parseCmd_fake_trxc_delay_bad {w : World} {i : Nat} {a : Str} {ms : Int}
+    (ha : pyInt a = some ms) (h : ms < 0 ∨ ms > 60000) :
+    parseCmd w i [lit "FAKE_TRXC_DELAY", a] = .ok (w, (-1, [])) := by
+  have hb : ms < 0 ∨ ms > Gen.World.trxcDelayMaxMs := by rw [trxcDelayMaxMs_eq]; exact h
+  rw [parseCmd_eq, ctrlCmdHandler_fake_trxc_delay]
+  simp only [toInt_ok ha, bind, Except.bind, pure, Except.pure, hb, if_true, applyPatch]
 /-! ### requests outside the command table -/
 
 /-- no row of the documented table matches the request (verb and argument count) -/
@@ -850,5 +865,10 @@ theorem parseCmd_meets_spec {w : World} {i : Nat} {t : Trx} (ht : w.trxs[i]? = s
     · -- FAKE_TRXC_DELAY
       obtain ⟨rfl, a, rfl⟩ := verify_lit1 hv
       obtain ⟨v, rfl, hv⟩ := intArgs_one ha
-      exact ⟨_, [], parseCmd_fake_trxc_delay ht hv, rfl, rfl⟩
+      have hs : Spec.Trxc.semantics (viewOf t) "FAKE_TRXC_DELAY" [v] =
+          (if v < 0 ∨ v > 60000 then ⟨-1, .none⟩ else ⟨0, .delay v⟩) := rfl
+      rw [hs]
+      by_cases hb : v < 0 ∨ v > 60000
+      · rw [if_pos hb]; exact ⟨w, [], parseCmd_fake_trxc_delay_bad hv hb, rfl, rfl⟩
+      · rw [if_neg hb]; exact ⟨_, [], parseCmd_fake_trxc_delay ht hv (by omega) (by omega), rfl, rfl⟩
 end OsmoVerif.World
